@@ -187,7 +187,7 @@ Record CSim (s : cstate) (m : cmon) : Prop := mkCSim {
      (tc s = true -> cdone s = false -> (c0 + w <= now s)%N);
   cs_oblig : forall f D, oblig m = Some (f, D) ->
      D = (f + w + sl)%N /\ (f <= now s)%N /\
-     (1 <= buf s \/ (cancelled s = false /\ owed s = true /\ last s = Some f)) /\
+     ((1 <= buf s /\ (f + w <= now s)%N) \/ (cancelled s = false /\ owed s = true /\ last s = Some f)) /\
      (listen = true -> (now s <= f + w)%N);
   cs_tcall : isSome (tcall m) = cancelled s;
   cs_tret : forall tr, tret m = Some tr ->
@@ -232,7 +232,7 @@ Proof.
     constructor; simpl; auto; try lia.
     + intros c0 E. destruct (S3 c0 E) as (A & B & C & D). repeat split; auto. lia.
     + intros f D E. destruct (S4 f D E) as (A & B & [C|(C & _)] & D'); [|congruence].
-      repeat split; auto.
+      split; [exact A|]. split; [exact B|]. split; [left; exact C|exact D'].
   - (* strobe received by the loop *)
     right. eexists. eexists. split; [reflexivity|]. split; [apply es_result; exact Hob|].
     destruct (cancelled s) eqn:Hc; rewrite S5; simpl.
@@ -245,7 +245,7 @@ Proof.
         -- intros d Ed. inversion Ed; subst. specialize (I7 t El). lia.
         -- discriminate.
       * intros f D E. destruct (S4 f D E) as (A & B & [C|(C & _)] & D'); [|congruence].
-        repeat split; auto.
+        split; [exact A|]. split; [exact B|]. split; [left; exact C|exact D'].
     + (* normal *)
       assert (Hinc : bursts s + b2n (negb (owed s)) <= poss m + es_inc m (now s)).
       { destruct (owed s) eqn:Ho; simpl; [lia|]. unfold es_inc.
@@ -273,31 +273,48 @@ Proof.
       split; [exact A|]. split; [left; apply D; auto|]. split; [exact C|]. discriminate.
     + intros f D E. destruct (S4 f D E) as (A & B & C & D').
       split; [exact A|]. split; [exact B|]. split; [|exact D'].
-      left. destruct (buf s); simpl; lia.
+      left. split; [destruct (buf s); simpl; lia|].
+      destruct C as [[_ C]|(C1 & C2 & C3)]; [exact C|].
+      destruct (I4 C2 Hd) as (t & El & [(_ & E2 & _)|(_ & _ & E3)]); [congruence|].
+      rewrite C3 in El. inversion El; subst. lia.
     + intros tr E. destruct (S6 tr E) as [A _]. congruence.
   - (* take *)
-    right. eexists. eexists. split; [reflexivity|]. split.
-    + unfold cmon_event.
-      assert (Hal : Nat.ltb (match lastc m with
-                             | Some c0 => if N.ltb (now s + sl) (c0 + w) then poss m - 1 else poss m
-                             | None => poss m
-                             end) (S (sigs m)) = false).
-      { apply Nat.ltb_ge. rewrite S2. destruct (lastc m) as [c0|] eqn:El; [|lia].
-        destruct (N.ltb_spec (now s + sl) (c0 + w)); [|lia].
-        destruct (S3 c0 eq_refl) as (_ & [B|B] & _); lia. }
-      rewrite Hal.
-      assert (Htr : listen && match tret m with Some tr => N.ltb (tr + sl) (now s) | None => false end = false).
-      { destruct listen; auto. destruct (tret m) as [tr|] eqn:Et; auto. simpl.
-        destruct (S6 tr eq_refl) as [_ B]. rewrite (B eq_refl) by lia. apply N.ltb_ge. lia. }
-      rewrite Htr.
-      destruct (oblig m) as [[f D]|] eqn:Eo; [|reflexivity].
-      destruct (S4 f D eq_refl) as (A & B & _). destruct (N.ltb_spec (now s) f); [lia|].
-      rewrite (Hob f D eq_refl). reflexivity.
-    + constructor; simpl; auto.
-      * intros c0 E. destruct (S3 c0 E) as (A & B & C & D).
-        split; [exact A|]. split; [destruct B; [left; auto|right; lia]|]. split; [exact C|exact D].
-      * discriminate.
-      * intros tr E. destruct (S6 tr E) as [A B]. split; auto.
+    assert (Hal : Nat.ltb (match lastc m with
+                           | Some c0 => if N.ltb (now s + sl) (c0 + w) then poss m - 1 else poss m
+                           | None => poss m
+                           end) (Datatypes.S (sigs m)) = false).
+    { apply Nat.ltb_ge. rewrite S2. destruct (lastc m) as [c0|] eqn:El; [|lia].
+      destruct (N.ltb_spec (now s + sl) (c0 + w)); [|lia].
+      destruct (S3 c0 eq_refl) as (_ & [B|B] & _); lia. }
+    assert (Htr : listen && match tret m with Some tr => N.ltb (tr + sl) (now s) | None => false end = false).
+    { destruct listen; auto. destruct (tret m) as [tr|] eqn:Et; auto. simpl.
+      destruct (S6 tr eq_refl) as [_ B]. rewrite (B eq_refl) by lia. apply N.ltb_ge. lia. }
+    assert (Hl3 : forall c0, lastc m = Some c0 ->
+       (exists t, last s = Some t /\ (c0 <= t)%N) /\
+       ((c0 + w <= now s)%N \/ Datatypes.S (taken s) + n + 1 <= poss m) /\
+       (forall d, timer s = Some d -> (c0 + w <= d)%N) /\
+       (tc s = true -> cdone s = false -> (c0 + w <= now s)%N)).
+    { intros c0 E. destruct (S3 c0 E) as (A & B & C & D).
+      split; [exact A|]. split; [destruct B; [left; auto|right; lia]|]. split; [exact C|exact D]. }
+    assert (Hl6 : forall tr, tret m = Some tr ->
+                  cdone s = true /\ (listen = true -> 1 <= n -> now s = tr)).
+    { intros tr E. destruct (S6 tr E) as [A B]. split; auto. }
+    right. exists (EG (now s)).
+    destruct (oblig m) as [[f D]|] eqn:Eo.
+    + destruct (N.ltb (now s + sl) (f + w)) eqn:Ek.
+      * (* an older signal: the strobe's own signal is still owed *)
+        eexists. split; [reflexivity|]. split.
+        { unfold cmon_event. rewrite Hal, Htr, Eo, Ek. reflexivity. }
+        apply N.ltb_lt in Ek. constructor; simpl; auto.
+        intros f' D' E. inversion E; subst f' D'. destruct (S4 f D eq_refl) as (A & B & C & D2).
+        split; [exact A|]. split; [exact B|]. split; [|exact D2].
+        destruct C as [[_ C]|C]; [lia|right; exact C].
+      * eexists. split; [reflexivity|]. split.
+        { unfold cmon_event. rewrite Hal, Htr, Eo, Ek, (Hob f D eq_refl). reflexivity. }
+        constructor; simpl; auto. discriminate.
+    + eexists. split; [reflexivity|]. split.
+      { unfold cmon_event. rewrite Hal, Htr, Eo. reflexivity. }
+      constructor; simpl; auto. discriminate.
   - (* poll *)
     right. eexists. eexists. split; [reflexivity|]. split.
     + unfold cmon_event. destruct (oblig m) as [[f D]|] eqn:Eo; [|reflexivity].
@@ -349,9 +366,10 @@ Proof.
     + intros c0 E. destruct (S3 c0 E) as (A & B & C & D). split; auto. split; [|split; auto].
       * destruct B; [left; lia|right; auto].
       * intros Ht Hd. rewrite Hd, Ht in Hu1. discriminate.
-    + intros f D E. destruct (S4 f D E) as (A & B & C & D'). split; auto. split; [lia|]. split; auto.
+    + intros f D E. destruct (S4 f D E) as (A & B & C & D'). split; [exact A|]. split; [lia|]. split;
+        [destruct C as [[C1 C2]|C]; [left; split; [exact C1|lia]|right; exact C]|].
       intros L. rewrite L in Hu2. simpl in Hu2. apply Nat.ltb_ge in Hu2.
-      destruct C as [C|(C1 & C2 & C3)]; [lia|].
+      destruct C as [[C _]|(C1 & C2 & C3)]; [lia|].
       assert (Hd : cdone s = false).
       { destruct (cdone s) eqn:E'; auto. destruct (I8 eq_refl). congruence. }
       rewrite Hd in Hu1. simpl in Hu1. apply orb_false_iff in Hu1. destruct Hu1 as [Htc Hdue].
@@ -424,7 +442,7 @@ Qed.
 
 Definition is_tc (e : cevent) : bool := match e with ETc _ => true | _ => false end.
 Definition quiet_for (f : N) (e : cevent) : bool :=
-  match e with ES _ _ | ETc _ => false | EG g => N.ltb g f | _ => true end.
+  match e with ES _ _ | ETc _ => false | EG g => N.ltb (g + sl) (f + w) | _ => true end.
 Definition count_sig (evs : list cevent) : nat :=
   length (filter (fun e => match e with EG _ => true | _ => false end) evs).
 
@@ -531,7 +549,7 @@ Qed.
 Definition within (f D : N) (x : cevent) : Prop :=
   match x with
   | ES c' _ | ETc c' | EEnd c' => listen = true -> (c' <= D)%N
-  | EG g => (f <= g)%N -> listen = true -> (g <= D)%N
+  | EG g => (f + w <= g + sl)%N -> listen = true -> (g <= D)%N
   | EP t => (t <= D)%N
   | ETr _ => True
   end.
@@ -618,4 +636,41 @@ Lemma coalescer_example_rejects :
   check_C31_code 30 15 true [ES 0 1; EG 300; EEnd 400] = 2 /\
   (* and accepted: jitter within the slack *)
   check_C31_code 30 15 true [ES 0 1; ES 20 21; EG 60; ES 100 101; EG 140; EEnd 400] = 0.
+Proof. vm_compute. repeat split; reflexivity. Qed.
+
+(* A strobe arms the timer whether or not a signal is still sitting in the
+   channel: together with [coalescer_delivered] this covers the slow consumer
+   (a strobe arriving while an older signal is buffered still gets its signal
+   once the older one has been taken before the window ends). *)
+Lemma coalescer_strobe_arms w listen s :
+  cdone s = false ->
+  exists s', cstep w listen s AStrobe = Some s' /\ timer s' = Some (now s + w)%N /\ owed s' = true /\
+             last s' = Some (now s) /\ buf s' = buf s.
+Proof. intros Hd. simpl. rewrite Hd. eexists. split; [reflexivity|]. simpl. auto. Qed.
+
+Definition coalescer_slow_consumer : list caction :=
+  [ AStrobe; ATick; ATick; ATick; AFire; AHandle;          (* first signal buffered at 3, not taken *)
+    ATick; ATick; ATick; ATick;
+    AStrobe;                                               (* at 7, while the old signal is buffered *)
+    ATick; ATake;                                          (* the consumer takes the old signal at 8 *)
+    ATick; ATick; AFire; AHandle;                          (* at 10 the strobe's own signal is placed *)
+    ATick; ATick; ATake; AEnd ].
+
+Lemma coalescer_slow_consumer_run :
+  exists s, crun 3 false cinit coalescer_slow_consumer = Some s /\
+    chistory s = [ES 0 0; ES 7 7; EG 8; EG 12; EEnd 12] /\
+    put s = 2 /\ taken s = 2 /\ check_C31 3 0 false (chistory s) = true.
+Proof. eexists. vm_compute. repeat split; reflexivity. Qed.
+
+Lemma coalescer_slow_consumer_rejects :
+  (* the strobe at 100 arrives while the first signal is buffered; the consumer
+     takes the old signal at 110; nothing is there long after the window *)
+  check_C31_code 30 5 false [ES 0 1; ES 100 101; EG 110; EP 200; EEnd 300] = 2 /\
+  (* the same with a listener that was late for the first signal only *)
+  check_C31_code 30 5 true [ES 0 1; ES 100 101; EG 110; EEnd 300] = 2 /\
+  (* legitimate: the old signal is taken only after the strobe's window, the
+     strobe's own signal was dropped into the full slot *)
+  check_C31_code 30 5 false [ES 0 1; ES 100 101; EG 150; EP 200; EEnd 300] = 0 /\
+  (* legitimate: drained in time, and a second signal is found *)
+  check_C31_code 30 5 false [ES 0 1; ES 100 101; EG 110; EG 200; EEnd 300] = 0.
 Proof. vm_compute. repeat split; reflexivity. Qed.
